@@ -92,6 +92,23 @@ def run(ctx):
     # devices (standing invariants of the kv harness, findings tagged C10)
     import kv_engine
     kv_engine.inv_stage(ctx, cov)
+    # … and of the running store with background workers: the crash workloads of the proto harness (slow workers,
+    # deletes chasing in-flight writes) evaluate the standing invariants at every acknowledged flush; a complete,
+    # valid record of a key the store does not have is something an independent reader of the file finds (C10)
+    import proto_engine
+    ok2, _ = cargo_build(ctx, ["proto"])
+    if ok2:
+        pouts = proto_engine.run_proto(ctx, 6 if ctx.tier == "quick" else 12, ["crash"], ["workloads=%d" % (4 if ctx.tier == "quick" else 20), "budget=0", "lean=0"])
+        nfail = 0
+        for o in pouts:
+            for f in o.get("fails", []):
+                if f["prop"] == "C10":
+                    nfail += 1
+                    if nfail <= 2:
+                        violation(ctx, "the device file after an acknowledged flush of a running store: " + f["what"], "# re-run: harness/target/release/proto --seed %d crash workloads=4 budget=0 lean=0\n# %s\n" % (ctx.seed * 1000 + pouts.index(o), f["what"]), tag="ghost")
+        cov["running_store_flush_points_judged"] = sum(o.get("meta", {}).get("kinds", {}).get("crash-workload", 0) for o in pouts)
+        cov["running_store_ghost_records"] = nfail
+        ctx.log("running-store stage: %d crash workloads, %d ghost-record findings" % (cov["running_store_flush_points_judged"], nfail))
     return finish(ctx, "proof", cov, [
         "CRC-32C hardware paths (SSE4.2 / ARM) are exercised only as this machine selects them",
         "O_DIRECT I/O paths never execute in this sandbox (/.dockerenv present)",
